@@ -311,6 +311,14 @@ def run(pid, tier, replay=None):
                         openp = [p for p in run_.peers if run_.node.is_open(p)]
                         if openp:
                             run_.deliver_tx(rng.choice(openp), w3.concretise_tx(td), label="pool")
+                    # fault: one connection's descriptor dies while it is still registered (the broadcast must survive it)
+                    if rng.random() < 0.25:
+                        alive = [p for p in run_.peers if run_.node.is_open(p)]
+                        if len(alive) >= 2:
+                            victim = rng.choice(alive[:-1])
+                            run_.node.take_sent(victim)
+                            run_.node.hard_close(victim)
+                            lab.append(["peer_descriptor_dies", victim])
                     head_ts = run_.node.chain().head().timestamp
                     # clock relative to the head's timestamp: far behind ... ahead
                     off = rng.choice([-31, -30, -29, -5, -1, 0, 1, 2, 50])
